@@ -10,14 +10,13 @@ import (
 
 func init() {
 	register("C01", &propSpec{
-		technique: "static analysis: SSA value flow (key normalisation on all data paths), CFG edge guards and must-pass ordering over the vhost trie and serveHTTP",
+		technique: "static analysis: decision-table extraction of the vhost trie (Insert/Match evaluated abstractly over opaque host labels and path bytes for all small site sets and insertion orders, E10), SSA value flow (key normalisation on all data paths), CFG edge guards over serveHTTP, commutativity of trie writes",
 		run:       runC01,
 		decided: "R1 the host key used to insert and to look up a site is case-folded and port-stripped by the same function on every data path; " +
 			"R2 the matched site's handler chain runs only when a site was found, the not-found branch always writes the site-not-found response (404, 421 for HTTP/2+) and runs no handler; " +
-			"R3 host lookup order: exact name before wildcard candidates, wildcard ladder ascending and cumulative with first hit returned, request host before fallback hosts and fallbacks only while nothing matched; " +
-			"R4 path matching walks one byte per step, remembers the last node that has a site, and is guarded by nothing else; " +
+			"R6 the routing table of the trie: for every set of up to three sites over the host patterns {exact, *.b.c, *.*.c, *.*.*, catch-all, and two shorter patterns that must not match} x path prefixes {/, /x, /xy}, inserted in every order, Match returns the site of the most specific matching host pattern with the longest matching path prefix, or no site (abstract evaluation with opaque labels and path bytes, E10) — this subsumes the former pattern rules R3 (lookup order) and R4 (longest prefix); " +
 			"R5 every write of trie state on the Insert path commutes (idempotent insert-if-absent of a fresh node, the key's own terminal node, a constant, or a monotone accumulation), a necessary condition of declaration-order independence.",
-		notDecided: "that these shapes compute the stated precedence for all host sets (value semantics of the trie); declaration-order independence beyond commutativity of the writes (R5); path-prefix trimming arithmetic.",
+		notDecided: "site sets larger than three and host names with more than three labels (the table is exhaustive below that bound); the relative order of the built-in fallback hosts; path-prefix trimming arithmetic.",
 	})
 }
 
@@ -27,9 +26,11 @@ func runC01(r *Report, p *Program) {
 	h := H{r, p}
 	c01R1(h)
 	c01R2(h)
-	c01R3(h)
-	c01R4(h)
+	// R3 (lookup order) and R4 (longest prefix) were pattern rules over matchHost/Match/matchPath; they are
+	// subsumed by the routing table R6, which decides the same clauses from the functions' input/output behaviour
+	// and is indifferent to how the code spells them.
 	c01R5(h)
+	c01R6(h)
 }
 
 func isEdgesMapLookup(in ssa.Instruction) (*ssa.Lookup, bool) {
